@@ -571,6 +571,15 @@ package keeper
 
 //@ func Keeper.PartitionBasedOnPriorityList pure
 //@ ensures [frame] S == old(S) && E == old(E) && X == old(X)
+//@ loop 1 invariant [idx] 0 <= _i && _i <= len(nextValidators)
+//@ loop 1 invariant [split] len(priorityValidators) + len(nonPriorityValidators) == _i
+//@ loop 1 invariant [priority-side] forall j int :: 0 <= j && j < len(priorityValidators) ==> k.IsPrioritylisted(ctx, consumerId, types.NewProviderConsAddress(priorityValidators[j].ProviderConsAddr))
+//@ loop 1 invariant [other-side] forall j int :: 0 <= j && j < len(nonPriorityValidators) ==> !k.IsPrioritylisted(ctx, consumerId, types.NewProviderConsAddress(nonPriorityValidators[j].ProviderConsAddr))
+//@ loop 1 invariant [pure] S == old(S) && E == old(E) && X == old(X)
+//@ ensures [nobody-lost] len(result0) + len(result1) == len(nextValidators)
+//@ ensures [priority-side] (stretch) forall j int :: 0 <= j && j < len(result0) ==> k.IsPrioritylisted(ctx, consumerId, types.NewProviderConsAddress(result0[j].ProviderConsAddr))
+//@ ensures [other-side] (stretch) forall j int :: 0 <= j && j < len(result1) ==> !k.IsPrioritylisted(ctx, consumerId, types.NewProviderConsAddress(result1[j].ProviderConsAddr))
+//@ ensures [both-sorted-by-power] (forall a int, b int :: 0 <= a && a < b && b < len(result0) ==> result0[a].Power >= result0[b].Power) && (forall a int, b int :: 0 <= a && a < b && b < len(result1) ==> result1[a].Power >= result1[b].Power)
 
 //@ func Keeper.CapValidatorsPower pure
 //@ ensures [frame] S == old(S) && E == old(E) && X == old(X)
